@@ -231,6 +231,10 @@ def rule_ef_fresh(repo, col):
             cp = kwarg(n.value, 'copy')
             copies = n if cp is None or (isinstance(cp, ast.Constant) and
                                          cp.value is True) else False
+            # the copy only protects every caller when it is made on
+            # every path
+            if copies is not False and n not in init.body:
+                copies = False
     ctor_copies = copies not in (None, False)
     # per call site
     n_sites = 0
